@@ -48,3 +48,38 @@ def drain() -> list[dict]:
     out = _mem[:]
     del _mem[:]
     return out
+
+
+def describe_compiler(compiler) -> dict:
+    """
+    Return a JSON-serializable description of a compiler definition
+    (implicit options, parser rules, modes and passes) for "ParseArgs" events.
+    """
+    rules = []
+    for option in compiler.parser:
+        rule = {}
+        for key, value in option.items():
+            if key == "action" and not isinstance(value, str):
+                value = {
+                    "_StoreSplitAction": "store_split",
+                    "_ExtendMatchAction": "extend_match",
+                }.get(value.__name__, value.__name__)
+            rule[key] = value
+        rules.append(rule)
+
+    def mode(m):
+        return {
+            "defines": list(m.defines),
+            "include_paths": list(m.include_paths),
+            "include_files": list(m.include_files),
+        }
+
+    return {
+        "options": list(compiler.options),
+        "parser": rules,
+        "modes": {n: mode(m) for n, m in compiler.modes.items()},
+        "passes": {
+            n: dict(mode(p), modes=list(p.modes))
+            for n, p in compiler.passes.items()
+        },
+    }
